@@ -96,20 +96,20 @@ Require Import SK.Skel.GroupBCD SK.Skel.GroupBCDProofs.
 (* skeleton of GroupBCD._solve (tied by mock-kernel trace correspondence): a returned stop_crit <= tol is the criterion --
    score of every group and the intercept term -- evaluated at the returned (w, Xw); budget 0 returns +inf *)
 Theorem groupbcd_stop_is_criterion_of_returned_point :
-  forall {F} `{Num F} {A} (cfg : @config F) (K : @kernels F A) w_init Xw_init out,
-  bsolve cfg K w_init Xw_init = Ok out -> ele (g_stop out) (tol cfg) = true ->
-  exists lip opt, k_lipschitz K = Ok lip /\ bcrit cfg K lip (g_s out) = Ok (opt, g_stop out).
+  forall {F} `{Num F} {A} (cfg : @config F) (K : @kernels F A) (ng : nat) w_init Xw_init out,
+  bsolve cfg K ng w_init Xw_init = Ok out -> ele (g_stop out) (tol cfg) = true ->
+  exists lip opt, k_lipschitz K = Ok lip /\ bcrit cfg K lip ng (g_s out) = Ok (opt, g_stop out).
 Proof. intros F H A. exact (@bsolve_stop_is_criterion F H A). Qed.
 Print Assumptions groupbcd_stop_is_criterion_of_returned_point.
 
 (* any relation between w and Xw kept by the block epoch, the intercept update and the accelerator's output (e.g.
    Xw = X w + b 1) holds for the returned pair *)
 Theorem groupbcd_invariant_transport :
-  forall {F} `{Num F} {A} (cfg : @config F) (K : @kernels F A) (I : list F -> list F -> Prop) w0 Xw0 out,
+  forall {F} `{Num F} {A} (cfg : @config F) (K : @kernels F A) (ng : nat) (I : list F -> list F -> Prop) w0 Xw0 out,
   (forall lip w Xw ws w' Xw', I w Xw -> k_epoch K (wp cfg w) Xw lip ws = Ok (w', Xw') -> I (with_wp cfg w w') Xw') ->
   (forall w Xw w' Xw', I w Xw -> b_intercept_update cfg K w Xw = Ok (w', Xw') -> I w' Xw') ->
   (forall a w Xw w_acc Xw_acc a', I w Xw -> k_acc_step K a w Xw = Ok (w_acc, Xw_acc, true, a') -> I w_acc Xw_acc) ->
-  I w0 Xw0 -> bsolve cfg K (Some w0) (Some Xw0) = Ok out -> I (b_w (g_s out)) (b_Xw (g_s out)).
+  I w0 Xw0 -> bsolve cfg K ng (Some w0) (Some Xw0) = Ok out -> I (b_w (g_s out)) (b_Xw (g_s out)).
 Proof. intros F H A. exact (@bsolve_preserves F H A). Qed.
 Print Assumptions groupbcd_invariant_transport.
 
